@@ -14,6 +14,7 @@ type glslFE struct {
 	es       bool
 	profile  string
 	reserved map[string]bool
+	lenient  bool // an #extension may add built-ins: do not gate built-in functions by version
 }
 
 var glslDesktopVersions = map[int]bool{110: true, 120: true, 130: true, 140: true, 150: true, 330: true, 400: true, 410: true, 420: true, 430: true, 440: true, 450: true, 460: true}
